@@ -213,7 +213,7 @@ def main():
         work = enumerate_mutants(only)
         print('%d mutants over %d functions' % (len(work), len(set((w['file'], w['func'], w['func_line']) for w in work))))
         ctxm = multiprocessing.get_context('fork')
-        with ctxm.Pool(14) as pool:
+        with ctxm.Pool(int(os.environ.get("SWEEP_PROCS", "14"))) as pool:
             results = pool.map(run_one, work, chunksize=4)
         json.dump(results, open(out, 'w'), indent=0)
         tally = {}
